@@ -294,6 +294,7 @@ def run(ctx):
                 'faults in bodies and in save_applied_number, resume-by-repeat; outputs per request: raised?, recorded '
                 'version, schema, invocation trace; plus the SQL set on SQLite (two set objects on one database, faults in '
                 'create_all and in the version write) and the Mongo set on the fake client; non-trivial = >=2 requests or a fault')
+    out.rule += '; by-number requests include 0 (a number no migration has); the SQL set runs on a database file and the recorded version and the tables are read through another connection after every request'
     return out
 
 
